@@ -68,8 +68,8 @@ var reflectNeverPanics = map[string]bool{
 	"(reflect.Value).CanInterface": true, "(reflect.Value).CanAddr": true, "(reflect.Value).CanSet": true,
 	"(reflect.Value).CanInt": true, "(reflect.Value).CanUint": true, "(reflect.Value).CanFloat": true, "(reflect.Value).CanComplex": true,
 	"(reflect.Value).Comparable": true,
-	"reflect.TypeOf": true, "reflect.ValueOf": true, "reflect.Indirect": true, "reflect.DeepEqual": true,
-	"(reflect.Kind).String": true,
+	"reflect.TypeOf":             true, "reflect.ValueOf": true, "reflect.Indirect": true, "reflect.DeepEqual": true,
+	"(reflect.Kind).String":    true,
 	"invoke:Kind@reflect.Type": true, "invoke:Name@reflect.Type": true, "invoke:String@reflect.Type": true, "invoke:PkgPath@reflect.Type": true,
 	"invoke:Size@reflect.Type": true, "invoke:Comparable@reflect.Type": true, "invoke:NumMethod@reflect.Type": true,
 	"(reflect.StructTag).Get": true, "(reflect.StructTag).Lookup": true,
